@@ -176,6 +176,21 @@ func scenarios() []scenario {
 			rel()
 			bc.Release()
 		}},
+		{name: "app:call answered, cancelled concurrently", appSide: true, cancel: true, peer: responder, app: func(x *exec) {
+			bc := x.s.Conn.Bootstrap(context.Background())
+			ans, rel := bc.SendCall(x.ctx, send(500))
+			_, err := ans.Struct()
+			x.note("call500 err=%v", err != nil)
+			a2, rel2 := bc.SendCall(context.Background(), send(501))
+			st, err2 := a2.Struct()
+			if err2 == nil && st.Uint32(0) != 501 {
+				x.note("WRONG-RESULT call501 got %d", st.Uint32(0))
+			}
+			x.note("call501 err=%v", err2 != nil)
+			rel2()
+			rel()
+			bc.Release()
+		}},
 		{name: "app:bootstrap+call, concurrent Close", appSide: true, closer: true, peer: responder, app: func(x *exec) {
 			bc := x.s.Conn.Bootstrap(x.ctx)
 			ans, rel := bc.SendCall(x.ctx, send(500))
@@ -320,6 +335,8 @@ func judge(sc scenario, x *exec, vr *vsched.Result) (string, string) {
 			return "call-after-close-succeeded", "a call issued after Close returned succeeded\n" + ctxt()
 		case strings.Contains(l, "DONE-NOT-CLOSED"):
 			return "done-not-closed", "Conn.Done() is not closed after Close returned\n" + ctxt()
+		case strings.Contains(l, "WRONG-RESULT"):
+			return "wrong-result-after-cancel", "a call issued after a cancelled call resolved with another call's result: " + l + "\n" + ctxt()
 		case strings.Contains(l, "DIRTY-AFTER-CLOSE"):
 			return "dirty-after-close", "after Close: " + x.snap + "\n" + ctxt()
 		}
@@ -390,7 +407,7 @@ func main() {
 		ID:          "C09",
 		Level:       "fault_enumeration",
 		CaseTimeout: 30 * time.Minute,
-		Rule:        "part (a): for each of 11 base scenarios (peer as caller: bootstrap/call/finish, finish before return, pipelining on an unreturned answer, capability-returning call + Release, hangup; Conn as caller: bootstrap+call, pipelined calls, never-answered call with context cancellation, concurrent Close) every placement of up to D transport faults (NewMessage error, send error, RecvMessage error, EOF) over all transport operations of the run, x the position of the one-shot Close / cancel threads and of one further preemption or free switch, followed by the fixed closing sequence Close, Close again, Bootstrap+call after Close and a snapshot of the Conn's locks and tables. evaluations = executions; a distinct non-trivial case is a distinct (faults taken, observable results) combination. Oracle: every operation returns, no thread is left blocked (all Conn goroutines exit), no panic, Done closed, transport closed exactly once with every message released, mutex and sender lock free, tables empty. " + c09torn.Rule,
+		Rule:        "part (a): for each of 12 base scenarios (peer as caller: bootstrap/call/finish, finish before return, pipelining on an unreturned answer, capability-returning call + Release, hangup; Conn as caller: bootstrap+call, pipelined calls, never-answered call with context cancellation, concurrent Close) every placement of up to D transport faults (NewMessage error, send error, RecvMessage error, EOF) over all transport operations of the run, x the position of the one-shot Close / cancel threads and of one further preemption or free switch, followed by the fixed closing sequence Close, Close again, Bootstrap+call after Close and a snapshot of the Conn's locks and tables. evaluations = executions; a distinct non-trivial case is a distinct (faults taken, observable results) combination. Oracle: every operation returns, no thread is left blocked (all Conn goroutines exit), no panic, Done closed, transport closed exactly once with every message released, mutex and sender lock free, tables empty. " + c09torn.Rule,
 		Assumptions: append([]string{
 			"real-time deadlines (abort timeout, partial-write timeout, net deadlines) are outside the scheduler: 'bounded time' is decided as termination under every explored schedule",
 			"torn writes on the real stream transport are the family torn-write (package c09torn) of this same harness; rpc/transport.go is not instrumented",
@@ -406,7 +423,7 @@ func main() {
 			}
 			return append(torn, []vlib.Family{
 				family("faults<=1", scs, all, vsched.Config{MaxPreempt: 1, MaxFree: 1, MaxDev: 1, MaxTotal: 1, MaxSteps: 30000}),
-				family("nofault,dev<=2", scs, rpcsim.FaultPlan{}, vsched.Config{MaxPreempt: 1, MaxFree: 1, MaxDev: 0, MaxTotal: 2, MaxSteps: 30000, MaxExecs: 60000}),
+				family("nofault,dev<=2", scs, rpcsim.FaultPlan{}, vsched.Config{MaxPreempt: 1, MaxFree: 1, MaxDev: 0, MaxTotal: 2, MaxSteps: 30000, MaxExecs: 400000}),
 			}...)
 		},
 	})
